@@ -2,6 +2,7 @@ package operator
 
 import (
 	"bytes"
+	"time"
 
 	"google.golang.org/protobuf/types/known/timestamppb"
 	"reduction.dev/reduction/dkv/recovery"
@@ -61,10 +62,34 @@ func Harness_C02_Alignment() {
 	root := storage.NewMemoryFilesystem()
 	job := &verifJob{}
 	handler := &verifSumHandler{}
+	if verif.Param("TIMERS", 0) == 1 {
+		handler.timerAt = 5 // before every watermark a script can carry (10, 20, ...)
+	}
 	e := verifStartOperator(root.WithWorkingDir("gen1"), nil, senders, batch, job, handler)
 	seenAtAck := map[uint64]int{}
 	callsAtAck := map[uint64]int{}
-	job.onAck = func(id uint64) { seenAtAck[id] = len(handler.seen); callsAtAck[id] = len(handler.watermark) }
+	// timers: was the timer of a key ever registered (it is registered only if it is later than the
+	// operator's watermark when the handler's response is applied) - sampled from the database after
+	// every call and at every acknowledgement
+	wasSet := make([]bool, len(keys))
+	setAtAck := map[uint64][]bool{}
+	sampleTimers := func() {
+		if handler.timerAt == 0 {
+			return
+		}
+		for i, key := range keys {
+			_, tk := e.op.timerRegistry.store.encodeTimerKey(key, time.Unix(handler.timerAt, 0))
+			if ent, err := e.op.db.Get(tk); err == nil && !ent.IsDelete() {
+				wasSet[i] = true
+			}
+		}
+	}
+	job.onAck = func(id uint64) {
+		seenAtAck[id] = len(handler.seen)
+		callsAtAck[id] = len(handler.watermark)
+		sampleTimers()
+		setAtAck[id] = append([]bool(nil), wasSet...)
+	}
 
 	// one goroutine per upstream; the harness releases one call at a time
 	goCh := []chan struct{}{make(chan struct{}), make(chan struct{})}
@@ -106,6 +131,7 @@ func Harness_C02_Alignment() {
 		next[s]++
 		goCh[s] <- struct{}{}
 		verif.Quiesce()
+		sampleTimers()
 	}
 	verif.Assert(done[0] == len(scripts[0]) && done[1] == len(scripts[1]), "every-call-returns")
 	// flush what is still batched
@@ -177,9 +203,34 @@ func Harness_C02_Alignment() {
 				}
 			}
 		}
-		r := verifStartOperator(root.WithWorkingDir("restore"), []recovery.CheckpointHandle{{CheckpointID: a.id, URI: a.uri}}, senders, 1, &verifJob{}, &verifSumHandler{})
+		rh := &verifSumHandler{}
+		r := verifStartOperator(root.WithWorkingDir("restore"), []recovery.CheckpointHandle{{CheckpointID: a.id, URI: a.uri}}, senders, 1, &verifJob{}, rh)
 		for i, key := range keys {
 			verif.Assert(bytes.Equal(verifSumOf(r.op.stateStore, key), want[i]), "checkpoint-holds-exactly-the-pre-barrier-effects")
+		}
+		if handler.timerAt > 0 {
+			// (3) a timer set by a pre-barrier event is, in the checkpoint, either still pending or has
+			// fired with its effect applied - never neither (lost) and never both (fires again)
+			firedInCkpt := make([]bool, len(keys))
+			for i, key := range keys {
+				firedInCkpt[i] = verifFiredOf(r.op.stateStore, key)
+			}
+			for _, sdr := range senders {
+				verif.Assert(r.op.HandleEvent(r.ctx, sdr, &workerpb.Event{Event: &workerpb.Event_Watermark{Watermark: &workerpb.Watermark{Timestamp: &timestamppb.Timestamp{Seconds: 1000}}}}) == nil, "watermark-handled-after-restore")
+			}
+			for i, key := range keys {
+				firesAfter := 0
+				for _, k := range rh.expired {
+					if bytes.Equal(k, key) {
+						firesAfter++
+					}
+				}
+				if set := setAtAck[a.id]; set != nil && set[i] {
+					verif.Assert((firedInCkpt[i] && firesAfter == 0) || (!firedInCkpt[i] && firesAfter == 1), "timer-registered-before-the-checkpoint-fires-exactly-once-across-it")
+				} else {
+					verif.Assert(!firedInCkpt[i] && firesAfter == 0, "no-timer-fires-that-was-not-registered-before-the-checkpoint")
+				}
+			}
 		}
 		r.cancel()
 	}
